@@ -22,10 +22,10 @@ ToSet(s) == {s[k] : k \in DOMAIN s}
 \* the sandbox may or may not have a global IPv6 address: the model does not produce peer:ipv6
 Strict(e) == (ToSet(e.obs) \cap AllObs) \ {"peer:ipv6"}
 
-Load(e) == /\ started' = e.started /\ proxy' = e.proxy /\ conf' = e.conf
+Load(e) == /\ started' = e.started /\ proxy' = e.proxy /\ kind' = e.kind /\ conf' = e.conf
            /\ due' = TRUE /\ wanted' = FALSE /\ out' = ToSet(e.obs) \cap AllObs /\ last' = [a |-> "Load"]
 
-Reset(e) == /\ started' = FALSE /\ proxy' = e.proxy /\ conf' = e.conf /\ due' = TRUE /\ wanted' = FALSE
+Reset(e) == /\ started' = FALSE /\ proxy' = e.proxy /\ kind' = e.kind /\ conf' = e.conf /\ due' = TRUE /\ wanted' = FALSE
             /\ out' = {} /\ last' = [a |-> "Reset"]
 
 Act(e) ==
@@ -42,7 +42,7 @@ Act(e) ==
 
 Explained == LET e == Trace[l] IN Act(e) /\ (e.l.a = "reset" \/ (out' = Strict(e) /\ conf' = e.conf))
 
-TInit == /\ l = 1 /\ started = FALSE /\ proxy = FALSE /\ conf = [trk |-> FALSE, ws |-> FALSE, dht |-> "none"]
+TInit == /\ l = 1 /\ started = FALSE /\ proxy = FALSE /\ kind = "http" /\ conf = [trk |-> FALSE, ws |-> FALSE, dht |-> "none"]
          /\ due = TRUE /\ wanted = FALSE /\ out = {} /\ last = [a |-> "Init"]
 
 TraceNext ==
